@@ -50,3 +50,10 @@ Theorem C11_teardown_namespace_bound :
     Forall (fun e => k_ns (ev_key e) = oi_ns (ow_id ow) /\ gk_scope (k_gk (ev_key e)) = Some true) evs.
 Proof. exact teardown_writes_ns_bound. Qed.
 Print Assumptions C11_teardown_namespace_bound.
+
+(** The phase-level rollout monitor (preflight gate + namespace bound, coq/corr/PhaseMonitors.v m11p)
+    accepts every rollout pass of the model, for every flavour and any third-party activity. *)
+From PKOCorr Require Import PhaseCorr PhaseMonitors C05Sound PhaseMonSound.
+Theorem C11_phase_monitor_sound : forall c : pcase, pc_teardown c = false -> m11p (set_obs c (model_run c)) = true.
+Proof. exact m11p_rollout_sound. Qed.
+Print Assumptions C11_phase_monitor_sound.
